@@ -24,6 +24,13 @@ class Untranslatable(Exception):
     pass
 
 
+class Partial(Exception):
+    """a plug-in translated everything but one sub-target (name, message): the other files have been written"""
+    def __init__(self, name, msg):
+        Exception.__init__(self, name, msg)
+        self.name, self.msg = name, msg
+
+
 def fail(msg, node=None):
     where = " (line %s)" % node.lineno if node is not None and hasattr(node, "lineno") else ""
     raise Untranslatable(msg + where)
@@ -323,7 +330,7 @@ def write_if_changed(path, txt):
 REF_DIR = os.path.join(os.path.dirname(os.path.abspath(__file__)), "reference")
 # target -> the generated files it owns
 TARGETS = {"TextTables": ["TextTables.v"], "PatcherProg": ["PatcherProg.v"],
-           "xl_main": ["Flags.v", "CliPlumbing.v", "EntryPoints.v"], "xl_state": ["StateShape.v"]}
+           "xl_main": ["Flags.v", "CliPlumbing.v", "EntryPoints.v"], "xl_main.flags": ["Flags.v"], "xl_state": ["StateShape.v"]}
 
 
 def main():
@@ -368,6 +375,9 @@ def main():
         try:
             job()
             status[name] = "ok"
+        except Partial as ex:
+            status[name] = "ok"
+            status[ex.name] = "FAILED: %s" % ex.msg
         except Untranslatable as ex:
             status[name] = "FAILED: %s" % ex
         except (SyntaxError, OSError, KeyError, AttributeError, IndexError, AssertionError, TypeError, ValueError) as ex:
